@@ -43,6 +43,7 @@ const (
 	wantUnavailable  = 503
 	wantTimeout      = 504
 	wantBadGateway   = 502
+	wantAnyFailure   = -2 // io.EOF / context.Canceled from the dial: for HTTP the gateway treats them as the caller going away (not judged); raw TCP and CONNECT still owe the caller a failure status
 	wantTimeoutOr502 = -1 // %w-wrapped raw net.Error timeouts: the statement's "timeout" vs "other" is not decidable; 504 or 502
 )
 
@@ -73,6 +74,8 @@ func errorTable() []errCase {
 	add("deadline-exceeded", context.DeadlineExceeded, wantTimeout, false)
 	add("arbitrary", errors.New("scripted arbitrary failure"), wantBadGateway, false)
 	add("no-direct", transport.ErrNoDirect, wantBadGateway, true)
+	add("eof", io.EOF, wantAnyFailure, false)
+	add("canceled", context.Canceled, wantAnyFailure, false)
 	// raw net.Error timeouts
 	t = append(t,
 		errCase{"net-timeout", "bare", timeoutErr{}, wantTimeout, false},
@@ -451,7 +454,7 @@ func judge(r *ev.Run, w *world, j job, o obs, err error) {
 		ec := j.ec
 		switch {
 		case isHTTP:
-			okStatus := o.httpStatus == ec.http || (ec.http == wantTimeoutOr502 && (o.httpStatus == 504 || o.httpStatus == 502))
+			okStatus := o.httpStatus == ec.http || (ec.http == wantTimeoutOr502 && (o.httpStatus == 504 || o.httpStatus == 502)) || ec.http == wantAnyFailure // HTTP: the gateway treats these as the caller going away and writes nothing (not judged)
 			if !okStatus {
 				want := fmt.Sprint(ec.http)
 				if ec.http == wantTimeoutOr502 {
